@@ -7,5 +7,6 @@ INVARIANT CompleteInv
 INVARIANT LaterScansFalse
 INVARIANT ErrPrecedence
 INVARIANT FalseReasonInv
+INVARIANT ReadAheadInv
 PROPERTY ScanReturns
 CHECK_DEADLOCK FALSE
